@@ -34,6 +34,8 @@ def plan(ctx):
         seqs.append(("tr-%d" % i, g.heap_seq(rng, "tr")))
         seqs.append(("slow-%d" % i, g.slow_seq(rng)))
         seqs.append(("resfill-%d" % i, g.res_exact_fill(rng)))
+        if i % 3 == 0:
+            seqs.append(("rsc-%d" % i, g.res_split_carry(rng)))
         seqs.append(("slowbump-%d" % i, g.slow_bump(rng)))
     batches = [("corpus", corpus()), ("gen", seqs)]
     exh = []
